@@ -57,6 +57,14 @@ META.update({
         note="trusted: the repo's key-layout helpers (conversion.NodeIdFromKey etc.) used to decode the dump"),
 })
 
+META["C12"] = dict(
+    technique="TLA+ protocol spec (ShardMgr.tla) model-checked exhaustively; TLC-generated behaviours forced on the real shard manager; events validated by a TLA+ monitor (MgrMonitor.tla)",
+    design_ref="DESIGN.md 5 C12",
+    text=("Exhaustive TLC check of the load / idle-unload / delete protocol (all interleavings of 3 requests, the timer and 2 "
+          "deletions: safety, deadlock freedom, liveness), bound to the code by replaying TLC behaviours through build-tag-guarded "
+          "yield points and validating the observed events with TLC."),
+    note="trusted: the scheduler's goroutine-dump based deadlock confirmation; bbolt file locking; single shard directory")
+
 NOT_APPLICABLE = {}
 
 
@@ -109,7 +117,7 @@ def main():
     print("MANIFEST.json written:", len(checks), "checks,", len(na), "not claimed")
 
 
-HOOK_COMMITS = ["d99ec3b"]
+HOOK_COMMITS = ["d99ec3b", "25e3dcc"]
 
 if __name__ == "__main__":
     main()
